@@ -2,6 +2,7 @@
 # conforming image.  Also runs the pack-archive cases of C05 (gen/packtotal.py) in both build profiles.
 import os
 import struct
+import zlib
 
 import common
 from common import PropertyCheck, Case
@@ -14,6 +15,37 @@ GAME_FILE_CONTENT = [(b"FE9ArcTest1.bin", bytes([1, 2, 3, 4, 5])), (b"FE9ArcTest
 
 def big_files(n, bl):
     return [(("f%d" % i).encode(), bytes((i + j) % 251 for j in range(bl))) for i in range(n)]
+
+
+def huge_files(lens):
+    """the files of kind packhuge: name h<i>, body byte j = (7 i + j) mod 251 (built from the 251-byte period, fast)"""
+    out = []
+    for i, n in enumerate(lens):
+        period = bytes((7 * i + j) % 251 for j in range(251))
+        out.append((("h%d" % i).encode(), (period * (n // 251 + 1))[:n]))
+    return out
+
+
+def expected_image(files):
+    """The image fe9_arc::serialize must produce, from the format arithmetic alone - a Python re-statement of
+    Proofs/PackSerialize.v `image` (the layout C15_serialize_conforms proves): 8-byte header, one 16-byte row per file
+    (0, name address, file address, size), the NUL-terminated names, zero padding to a multiple of 32, then every body
+    followed by zero padding to the next multiple of 32.  Returns (image, [(name address, file address, size)])."""
+    n = len(files)
+    hl = 8 + 16 * n
+    names = b"".join(k + b"\0" for (k, _) in files)
+    names += bytes(-(hl + len(names)) % 32)
+    base = hl + len(names)
+    recs, pos, na, chunks = [], base, hl, []
+    for (k, b) in files:
+        recs.append((na, pos, len(b)))
+        na += len(k) + 1
+        pad = -(pos + len(b)) % 32
+        chunks.append(b)
+        chunks.append(bytes(pad))
+        pos += len(b) + pad
+    head = struct.pack(">IHH", 0x7061636B, n & 0xFFFF, 0) + b"".join(struct.pack(">IIII", 0, a & 0xFFFFFFFF, f & 0xFFFFFFFF, z & 0xFFFFFFFF) for (a, f, z) in recs)
+    return head + names + b"".join(chunks), recs
 
 
 def check_image(img, files):
@@ -48,7 +80,8 @@ class C15(PropertyCheck):
             "incl. prefixes of each other: image compared byte-exact with the extracted model, parse(serialize(x)) with x); layout "
             "(reference writer with knobs - names after bodies, permuted, gaps with junk, overlapping storage, shared name suffixes, "
             "alignment 1/4/32, junk in ignored fields - accepted by the extracted verified conforms_packb, then fe9_arc::parse compared "
-            "with the intended content); game-file (resources/test/FE9Arc.bin); big (65535 files); too-many (65536, 70000 files: serialize must answer an error); pack-* (C05: random bytes, "
+            "with the intended content); game-file (resources/test/FE9Arc.bin); big (65535 files); too-many (65536, 70000 files: serialize must answer an error); huge (body sections of 16 MiB + 1 .. 33 MiB with a running length = 1 mod 32: "
+            "image length, CRC-32, round-trip flag and table rows against the layout arithmetic of Proofs/PackSerialize.v image - no model run at that size); pack-* (C05: random bytes, "
             "every truncation, boundary values in every field, wrong magic, flips - outcome category, parsed value, allocation bound, "
             "both profiles). Non-trivial = at least one file / input with the pack magic and a full header; distinct = distinct case line.")
     assumptions = [
@@ -113,6 +146,12 @@ class C15(PropertyCheck):
         # ---- many files (implementation + oracle only)
         for (n, bl) in ([(300, 1), (1000, 0), (32768, 0), (65535, 0)] if tier == "quick" else [(300, 1), (1000, 33), (65535, 0), (20000, 3)]):
             cases.append(Case("packbig %d %d" % (n, bl), "big"))
+        # ---- body sections beyond 16 MiB (2^24: where a length computed in f32 stops being exact; seeded C15-7), running length
+        #      = 1 (mod 32) right after a file; the image is not printed: length, CRC-32, round-trip flag and the table rows
+        M = 1 << 20
+        for lens in ([[16 * M + 1, 5], [8 * M + 1, 8 * M - 31, 13]] if tier == "quick" else
+                     [[16 * M + 1, 5], [8 * M + 1, 8 * M - 31, 13], [M] * 16 + [1, 7], [16 * M, 1], [16 * M + 2, 3], [32 * M + 1, 1], [32 * M + 2, 1]]):
+            cases.append(Case("packhuge " + " ".join(str(x) for x in lens), "huge"))
         # ---- more files than the 16-bit count can hold: serialize must return an error (finding F26, repair 530f18c; before it
         #      65536 files were written with count 0 and 70000 with count 4464)
         for n in ((65536, 70000) if tier == "quick" else (65536, 65537, 70000, 131072)):
@@ -138,6 +177,8 @@ class C15(PropertyCheck):
             fail = check_image(unB(ot[1]), files)
             if fail:
                 return fail
+            if expected_image(files)[0] != unB(ot[1]):
+                return "the image of %d files differs from the layout arithmetic (expected_image)" % n
             want = "ok" + packlib.entries_str(files)
             got = " ".join(ot[3:])
             if got != want:
@@ -163,6 +204,14 @@ class C15(PropertyCheck):
             if ot[2] != "rt=1":
                 return "parse(serialize(x)) differs from x for %d files" % n
             return None
+        if kind == "packhuge":
+            lens = [int(x) for x in toks[1:]]
+            files = huge_files(lens)
+            img, recs = expected_image(files)
+            want = "ok len=%d crc=%08x rt=1 recs=%s" % (len(img), zlib.crc32(img) & 0xFFFFFFFF, "L" + ",".join(str(x) for r in recs for x in r))
+            if impl_out != want:
+                return "pack with a body section of %d bytes: want %s got %s" % (sum(lens), want[:160], impl_out[:160])
+            return None
         if kind == "packparse":
             return packtotal.total_oracle(case, impl_out, profile)
         return "unknown kind " + kind
@@ -170,7 +219,7 @@ class C15(PropertyCheck):
     # ------------------------------------------------------------------ correspondence
     def agree(self, case, impl_out, model_out, profile):
         kind = case.line.split(" ", 1)[0]
-        if kind == "packbig":
+        if kind in ("packbig", "packhuge"):
             return model_out == "unmodelled"
         if kind == "packref":
             # the verified checker must accept what the reference writer wrote, and model = implementation
